@@ -16,7 +16,7 @@ CONSTANT Mode
 Traces == JsonDeserialize(IOEnv.TRACE_FILE)
 
 VARIABLES tid, l, mmon, mbad, mbadAt, conf, confAt,
-          rate, haskalman, script, pc, op, excbody, rres, si, bid, ladded, pendstart, vals, window, syncq,
+          rate, haskalman, script, pc, op, excbody, rres, si, bid, ladded, pendstart, lccf, slock, vals, window, syncq,
           pq, pinfl, t1, now, dblk, inq, link, ndata, obs, mon, bad
 
 T == Traces[tid]
@@ -35,7 +35,7 @@ Bug == "none"
 D == INSTANCE LogHelper
 P == INSTANCE LogHelperProps
 
-specvars == <<rate, haskalman, script, pc, op, excbody, rres, si, bid, ladded, pendstart, vals, window, syncq,
+specvars == <<rate, haskalman, script, pc, op, excbody, rres, si, bid, ladded, pendstart, lccf, slock, vals, window, syncq,
               pq, pinfl, t1, now, dblk, inq, link, ndata, obs, mon, bad>>
 
 Init == /\ tid \in 1..Len(Traces)
@@ -44,7 +44,7 @@ Init == /\ tid \in 1..Len(Traces)
         /\ conf = TRUE /\ confAt = 0
         /\ rate = Traces[tid].rate /\ haskalman = Traces[tid].haskalman /\ script = Traces[tid].script
         /\ pc = "idle" /\ op = "" /\ excbody = FALSE /\ rres = "" /\ si = 1
-        /\ bid = 0 /\ ladded = FALSE /\ pendstart = FALSE
+        /\ bid = 0 /\ ladded = FALSE /\ pendstart = FALSE /\ lccf = FALSE /\ slock = "free"
         /\ vals = [j \in 1..6 |-> -1]
         /\ window = P!Window0 /\ syncq = <<>>
         /\ pq = <<>> /\ pinfl = FALSE /\ t1 = 0 /\ now = Traces[tid].t0
